@@ -4,8 +4,7 @@ set -e
 cd "$(dirname "$0")"
 export CARGO_NET_OFFLINE=true
 python3 tools/gen_consts.py
-( cd coq && coq_makefile -f _CoqProject -o Makefile >/dev/null && timeout 3000 make -j16 2>&1 | grep -v "^COQC\|^COQDEP\|Closed under the global context" || true )
-( cd coq && timeout 3000 make -j16 >/dev/null )
+python3 -c "import sys; sys.path.insert(0,'tools'); import qv; rc,out=qv.coq_make([],3000); print(out[-3000:] if rc else 'coq build ok')"
 RUSTFLAGS="--cfg quandary_verif" CARGO_TARGET_DIR="$PWD/.build/target" timeout 3000 cargo build --offline --manifest-path harness/Cargo.toml --bins 2>&1 | tail -3
 python3 tools/build_runners.py
 echo "setup done"
